@@ -21,12 +21,13 @@ def main():
     n = 0
     findings, kinds, finals, sample = [], {}, set(), None
     tags = {}
+    percl = {}
     stats = getattr(m, "stats", None)
 
     def flush():
         nonlocal n, findings, kinds, finals, sample, tags
-        out.write(json.dumps({"n": n, "findings": findings, "kinds": kinds, "tags": tags,
-                              "finals": sorted(finals), "sample": sample}, default=_hex) + "\n")
+        out.write(json.dumps(clean({"n": n, "findings": findings, "kinds": kinds, "tags": tags,
+                                    "finals": sorted(finals), "sample": sample})) + "\n")
         out.flush()
         n = 0
         findings, kinds, finals, sample, tags = [], {}, set(), None, {}
@@ -59,13 +60,31 @@ def main():
         if sample is None and len(h) >= 3:
             sample = obj
         for f in fs:
-            if len(findings) < 40:
+            # keep the first few of every (owner, clause) in full, count the rest: the first
+            # occurrence of every distinct complaint always reaches the verdict with its behaviour
+            key = (f[0], f[1])
+            percl[key] = percl.get(key, 0) + 1
+            if percl[key] <= 3:
                 findings.append([f[0], f[1], f[2], obj])
             else:
                 findings.append([f[0], f[1], None, None])
         if n >= 2000:
             flush()
     flush()
+
+
+def clean(x):
+    """make anything a replayer reports JSON-serialisable (bytes -> hex, also as dict keys)"""
+    if isinstance(x, (bytes, bytearray)):
+        return bytes(x).hex()
+    if isinstance(x, dict):
+        return {(k if isinstance(k, (str, int, float, bool)) or k is None else clean(k) if
+                 isinstance(k, (bytes, bytearray)) else str(k)): clean(v) for k, v in x.items()}
+    if isinstance(x, (list, tuple, set, frozenset)):
+        return [clean(v) for v in x]
+    if isinstance(x, (str, int, float, bool)) or x is None:
+        return x
+    return str(x)
 
 
 def _hex(b):
